@@ -42,7 +42,7 @@ def run_impl(case):
             for it in case["items"]:
                 cls = classes[it["def"]]
                 before = buf.tell()
-                r = cls(data=[codec.dec_val(v) for v in it["data"]])
+                r = cls(data=[codec.dec_val(v, case.get("np_scalars", False)) for v in it["data"]])
                 r.write(buf, st)
                 after = buf.tell()
                 w = buf.getvalue()[before:after]
@@ -172,6 +172,8 @@ def make_def(rng, mode):
             fields.append(fd)
             pos += fd["size"]
     delim = codec.enc_data(rng.choice([";", ",", "|", "::"])) if mode == "delim" else None
+    if mode == "bin" and rng.random() < 0.25:
+        delim = codec.enc_data(rng.choice([";", b";", b"|"]))  # declared, but inert in binary storage
     if mode != "delim" and rng.random() < 0.4:
         # every field carries its absolute position: the declaration order is free
         # (the data of an item follow the declaration order)
@@ -215,7 +217,7 @@ def random_case(rng):
             fd0 = defs[i]["fields"][0]
             data[0] = {"i": 7} if fd0["k"] == "int" else ({"s": codec.enc_str("q")} if fd0["k"] == "lit" else (codec.enc_val(1.0) if fd0["k"] == "flt" else data[0]))
         items.append({"def": i, "data": data})
-    return {"storage": {"pos": rng.choice(["", "TEXT"]), "delim": "TEXT", "bin": "BINARY"}[mode], "defs": defs, "items": items}
+    return {"storage": {"pos": rng.choice(["", "TEXT"]), "delim": "TEXT", "bin": "BINARY"}[mode], "defs": defs, "items": items, "np_scalars": rng.random() < 0.2}
 
 
 def corpus_cases():
